@@ -597,10 +597,19 @@ func (c *stickyComp) Run(h *hlib.History) (mons []hlib.Mon, ok bool) {
 	}
 
 	// one request through the real balancer; panics are reported as status -1
+	nreq := 0
 	do := func(cookie *string) (status int, routed int, issued *string) {
 		req := httptest.NewRequest(http.MethodGet, "http://front.example/some/path?z=1", nil)
 		if cookie != nil {
-			req.Header.Set("Cookie", cookieName+"="+*cookie)
+			nreq++
+			switch nreq % 4 {
+			case 1: // other cookies first, on a line of their own: the affinity cookie comes on the second Cookie line
+				req.Header["Cookie"] = []string{"theme=dark; lang=en", cookieName + "=" + *cookie}
+			case 2: // ... or on the same line, after other cookies
+				req.Header.Set("Cookie", "theme=dark; "+cookieName+"="+*cookie+"; lang=en")
+			default:
+				req.Header.Set("Cookie", cookieName+"="+*cookie)
+			}
 		}
 		rec := httptest.NewRecorder()
 		routedURL = "\x00none"
